@@ -1,7 +1,7 @@
 (* C07 - Derived variable ranges are sound.  Only statements, `exact`, and Print Assumptions. *)
 From Coq Require Import QArith Reals List String.
 From Rooc Require Import Base.XQ Model.Exp Model.Sem Model.Bounds Model.Linearize Model.Spec
-  Proof.BoundsOfSound Proof.PropagateSound Proof.PublishSound Proof.PublishedCompile.
+  Proof.BoundsOfSound Proof.PropagateSound Proof.PublishSound Proof.PublishedCompile Proof.ShrinkSound.
 Import ListNotations.
 Local Close Scope Q_scope.
 
@@ -35,6 +35,15 @@ Check C07_published_sound : forall (m : model) (L : linmodel) (rho : string -> R
     compile m = inr L -> wf_domain m -> sat_model m rho ->
     forall n d t, In (n, d) (m_domain m) -> al_get (lm_domain L) n = Some t -> in_dom t (rho n).
 
+(* the other inclusion: the analysis only ever shrinks the boxes it starts from, so the published (tightened) type of a
+   declared variable lies inside its declared type (decl_ok: declared bounds are not NaN, integer ranges fit i32) *)
+Theorem C07_published_inside_declared :
+  forall (dom : list (string * vtype)) (cs : list constr) (n : string) (t : vtype) (x : R),
+    NoDup (map fst dom) -> (forall k t', In (k, t') dom -> decl_ok t') -> In (n, t) dom ->
+    in_dom (tighten_type (analyze dom cs) n t) x -> in_dom t x.
+Proof. exact published_inside_declared. Qed.
+
 Print Assumptions C07_bounds_of_sound.
+Print Assumptions C07_published_inside_declared.
 Print Assumptions C07_analyze_sound.
 Print Assumptions C07_published_sound.
